@@ -6,8 +6,10 @@ import os
 
 ROOT = os.path.dirname(os.path.dirname(os.path.abspath(__file__)))
 
-E1_NOTE = ("trusted base: the hand-written exact rational arithmetic of harness/src/exact.rs, the definition tables under "
-           "tables/, rustc/cargo; sampling cannot establish absence (DESIGN.md section 7)")
+E1_NOTE = ("runs in four builds of the harness against /repo's working tree: f64 and fpdec, each with debug assertions + overflow checks + "
+           "the crate's std feature on, and with all three off (C17: the two serde builds); trusted base: the hand-written exact rational "
+           "arithmetic of harness/src/exact.rs, the definition tables under tables/, rustc/cargo; sampling cannot establish absence "
+           "(DESIGN.md section 7)")
 
 CHECKS = {
     "C01": dict(
